@@ -73,6 +73,8 @@ def check(ctx):
     conversion_precedence(ctx, tc)
     pattern(ctx, repo, tc)
     families(ctx, s)
+    creation_guard(ctx, tc)
+    phases(ctx, repo)
     ctx.floor("Q1", 12 + 12 + 24)
     ctx.floor("Q2", 12)
 
@@ -394,3 +396,126 @@ def _same_sources(dag, a, b, u1, u2):
         if ma and mb and ma.group("base_name") == mb.group("base_name") and na.spec.get("aggr") == nb.spec.get("aggr") == "sum":
             return True
     return "independent definitions"
+
+
+def creation_guard(ctx, tc):
+    """Q5: whether a unit variant is derived depends on names only - the function's name matching the unit pattern,
+    the new name not being one of its own arguments / already present.  A condition on any other property of the
+    function (its annotations, its module, ...) leaves some columns without their y/m/w/d variants."""
+    from staticlib.guards import Dominance
+
+    ctx.rule("Q5", "a time-unit variant is created for every function whose name matches the unit pattern: the creating statement is guarded only by the name match and by name-membership tests, not by other properties of the function object")
+    fn = find_function(tc, "_create_time_conversion_functions", "primary anchor")
+    params = [a.arg for a in fn.args.args]
+    stores = [n for n in ast.walk(fn) if isinstance(n, ast.Assign) and isinstance(n.targets[0], ast.Subscript) and any(isinstance(c, ast.Call) and isinstance(c.func, ast.Name) and c.func.id == "_create_function_for_time_unit" for c in ast.walk(n.value))]
+    if not stores:
+        raise AnalysisError("_create_time_conversion_functions: the statement creating a derived function was not found; Q5 needs a re-read")
+    # names derived from the function object (second parameter), except through its signature (argument names)
+    fobj = params[1] if len(params) > 1 else "func"
+    derived = {fobj}
+    sig_derived = set()
+    for _ in range(3):
+        for a in ast.walk(fn):
+            if isinstance(a, ast.Assign) and len(a.targets) == 1 and isinstance(a.targets[0], ast.Name):
+                names = {x.id for x in ast.walk(a.value) if isinstance(x, ast.Name)}
+                if names & derived:
+                    if "signature" in ast.unparse(a.value) or "parameters" in ast.unparse(a.value) or (names & sig_derived and not (names & (derived - sig_derived))):
+                        sig_derived.add(a.targets[0].id)
+                    derived.add(a.targets[0].id)
+    dom = Dominance(fn)
+    for st in stores:
+        bad = []
+        for t, pol in dom.of(st):
+            names = {x.id for x in ast.walk(t) if isinstance(x, ast.Name)}
+            other = (names & derived) - sig_derived
+            if other and not (names == {fobj} and isinstance(t, ast.Name)):
+                bad.append(t)
+        ctx.ob("Q5", ok=not bad, distinct=st.lineno)
+        for t in bad:
+            ctx.violation("Q5", f"creation-guard|{ast.unparse(t)[:60]}", tc.loc(t) + " _create_time_conversion_functions", f"derived unit variants are created only if `{ast.unparse(t)[:80]}`: functions for which this property of the function object fails get no y/m/w/d variants although their names carry a time unit")
+    ctx.floor("Q5", 1)
+
+
+def phases(ctx, repo):
+    """PH: order and inputs of the derivation phases - pointer aggregates from the rules; unit variants from rules and
+    pointer aggregates; group aggregates from unit variants, rules and pointer aggregates (all as *functions*, the
+    data columns separately).  (This is also the wiring the static DAG model assumes.)"""
+    ctx.rule("PH", "_create_derived_functions hands the unit variants to the group-aggregation step as functions (so that an existing variant is not shadowed by an automatic sum) and the caller's data columns, unchanged, as data")
+    fl = repo.module("functions_loader.py")
+    fn = find_function(fl, "_create_derived_functions", "primary anchor")
+    la = {}
+    for a in walk_own(fn):
+        if isinstance(a, ast.Assign) and len(a.targets) == 1 and isinstance(a.targets[0], ast.Name):
+            la[a.targets[0].id] = a.value
+
+    def operands(e, depth=0):
+        """names merged into one mapping/list: {**a, **b}, a | b, [*a, *b], or a plain name"""
+        if isinstance(e, ast.Name):
+            v = la.get(e.id)
+            if v is not None and depth < 3 and not isinstance(v, ast.Call):
+                r = operands(v, depth + 1)
+                if r is not None:
+                    return r
+            return {e.id}
+        if isinstance(e, ast.Dict) and all(k is None for k in e.keys):
+            out = set()
+            for v in e.values:
+                r = operands(v, depth)
+                if r is None:
+                    return None
+                out |= r
+            return out
+        if isinstance(e, ast.BinOp) and isinstance(e.op, ast.BitOr):
+            a, b = operands(e.left, depth), operands(e.right, depth)
+            return None if a is None or b is None else a | b
+        if isinstance(e, (ast.List, ast.Tuple, ast.Set)) and all(isinstance(x, ast.Starred) for x in e.elts):
+            out = set()
+            for x in e.elts:
+                r = operands(x.value, depth)
+                if r is None:
+                    return None
+                out |= r
+            return out
+        return None
+
+    def producer(name):
+        v = la.get(name)
+        if isinstance(v, ast.Call):
+            return ast.unparse(v.func)
+        return None
+
+    calls = {ast.unparse(c.func): c for c in ast.walk(fn) if isinstance(c, ast.Call) and ast.unparse(c.func) in ("_create_aggregate_by_group_functions", "create_time_conversion_functions", "_create_aggregate_by_p_id_functions")}
+    if len(calls) != 3:
+        raise AnalysisError("_create_derived_functions no longer calls the three derivation steps; PH needs a re-read")
+    pparams = [a.arg for a in fn.args.args]
+    dparam = next((p for p in pparams if "data" in p), None)
+    roles = {}
+    for nm in la:
+        pr = producer(nm)
+        if pr in calls:
+            roles[nm] = pr
+
+    def role_set(names):
+        return {roles.get(n, "rules" if n in pparams else n) for n in names}
+
+    checks = [
+        ("create_time_conversion_functions", {"rules", "_create_aggregate_by_p_id_functions"}),
+        ("_create_aggregate_by_group_functions", {"rules", "_create_aggregate_by_p_id_functions", "create_time_conversion_functions"}),
+    ]
+    for cname, want in checks:
+        c = calls[cname]
+        args = list(c.args) + [kw.value for kw in c.keywords]
+        f_ops = operands(args[0]) if args else None
+        if f_ops is None:
+            raise AnalysisError(f"{cname}: first argument is not a merge of function dictionaries; PH needs a re-read")
+        got = role_set(f_ops)
+        ok_f = got == want
+        d_arg = next((a for a in args[1:] if operands(a) is not None and dparam in (operands(a) or set())), None)
+        d_ops = operands(d_arg) if d_arg is not None else None
+        ok_d = d_ops == {dparam}
+        ctx.ob("PH", ok=ok_f and ok_d, distinct=cname)
+        if not ok_f:
+            ctx.violation("PH", f"{cname}|functions|{'+'.join(sorted(got))}", fl.loc(c) + " _create_derived_functions", f"{cname} receives as functions {sorted(got)}, expected {sorted(want)}: " + ("unit variants that exist already are not seen as functions, an automatic group sum of the same name shadows them" if "create_time_conversion_functions" in want - got else "derived columns enter a step that must not see them"))
+        if not ok_d:
+            ctx.violation("PH", f"{cname}|data|{'+'.join(sorted(role_set(d_ops or set())))}", fl.loc(c) + " _create_derived_functions", f"{cname} receives as data columns {sorted(role_set(d_ops or set()))} instead of the caller's data columns only: derived functions are mistaken for supplied data")
+    ctx.floor("PH", 2)
